@@ -37,3 +37,13 @@ func VerifC11QueueCaps(queueLen int) (sendQueue int, sendFailQueue int) {
 	tc := NewTarsClient("verif", nil, &TarsClientConf{QueueLen: queueLen})
 	return cap(tc.sendQueue), cap(tc.sendFailQueue)
 }
+
+// VerifC11AfterDequeue, when set, is called by the send goroutine of a client right after it has taken req from
+// the send queue or the send failure queue, before it tests whether conn is still the current connection.
+var VerifC11AfterDequeue func(tc *TarsClient, conn net.Conn, req []byte)
+
+func verifC11AfterDequeue(c *connection, conn net.Conn, req []byte) {
+	if f := VerifC11AfterDequeue; f != nil {
+		f(c.client, conn, req)
+	}
+}
